@@ -1149,7 +1149,7 @@ where
                 .map(|left| elems.iter().any(|elem| matches!(
                     elem,
                     Some(ExprOrSpread { spread: None, expr })
-                        if matches!(&**expr, Expr::Ident(ident) if ident.sym == left.sym)
+                        if matches!(&**expr, Expr::Ident(ident) if ident.to_id() == left.to_id())
                 )))
                 .unwrap_or_default()
         ));
